@@ -43,7 +43,8 @@ def main():
 def replay(pid, path):
     with open(path) as f:
         rec = json.load(f)
-    ctx = Ctx(pid, 'quick', 0)
+    ctx = Ctx.__new__(Ctx)
+    ctx.pid = pid
     if not rec.get('replayer'):
         print('replay file names obligation %s; no failing input was found; solver output:\n%s'
               % (rec.get('obligation'), rec.get('solver_output')))
